@@ -22,5 +22,10 @@ fn main() {
         + &std::env::var("RUSTFLAGS").unwrap_or_default();
     if hook.exists() && flags.contains("leptos_verif") {
         println!("cargo:rustc-cfg=has_yield_hooks");
+        // hooks/yield_points_v2.patch: the `sources:clearing` point
+        let src = std::fs::read_to_string(&hook).unwrap_or_default();
+        if src.contains("sources:clearing") {
+            println!("cargo:rustc-cfg=has_yield_hooks_v2");
+        }
     }
 }
